@@ -1,0 +1,109 @@
+//go:build verif
+// +build verif
+
+package datastore
+
+// Verification hook (build tag "verif", add-only): make this server the receiver of a push of
+// one of its own repos, so that an external harness gets a repo whose local version ids are not
+// in creation order, as every pushed repo's are.
+
+import (
+	"fmt"
+
+	"github.com/janelia-flyem/dvid/dvid"
+	"github.com/janelia-flyem/dvid/storage"
+)
+
+// VerifReceiveRepo serializes the repo with the given root as a sender transmits it
+// (repoT.GobEncode), deletes it here, and registers the decoded copy the way pusher.readRepo and
+// pusher.Close do: new repo id, new instance ids, new local version ids (the uuids are kept),
+// assigned stores, manager.addRepo.  No key-values are transferred.
+//
+// remapLocalIDs hands out the new version ids while ranging over the dag.nodes map, i.e. in an
+// unspecified order.  So that a driver can reproduce a case, the ids are handed out here in the
+// given order of uuids instead (any order is a possible outcome of that map iteration); with a nil
+// order remapLocalIDs itself is called.  As after a real push, the versions of the received repo
+// resolve by uuid only once the metadata has been loaded again (restart).
+func VerifReceiveRepo(root dvid.UUID, passcode string, order []dvid.UUID) error {
+	if manager == nil {
+		return ErrManagerNotInitialized
+	}
+	sender, err := manager.repoFromUUID(root)
+	if err != nil {
+		return err
+	}
+	sender.RLock()
+	transmitted, err := sender.GobEncode()
+	sender.RUnlock()
+	if err != nil {
+		return err
+	}
+	if err := manager.deleteRepo(root, passcode); err != nil {
+		return err
+	}
+
+	repo := new(repoT)
+	if err := repo.GobDecode(transmitted); err != nil {
+		return err
+	}
+	if repo.id, err = manager.newRepoID(); err != nil {
+		return err
+	}
+	if order == nil {
+		if _, _, err := repo.remapLocalIDs(); err != nil {
+			return err
+		}
+	} else {
+		// remapLocalIDs with the iteration order of its first pass fixed
+		for dataname, dataservice := range repo.data {
+			instanceID, err := manager.newInstanceID()
+			if err != nil {
+				return err
+			}
+			_ = dataservice
+			repo.data[dataname].SetInstanceID(instanceID)
+		}
+		byUUID := make(map[dvid.UUID]dvid.VersionID, len(repo.dag.nodes))
+		for oldV, node := range repo.dag.nodes {
+			byUUID[node.uuid] = oldV
+		}
+		if len(order) != len(byUUID) {
+			return fmt.Errorf("order names %d versions, the repo has %d", len(order), len(byUUID))
+		}
+		newNodes := make(map[dvid.VersionID]*nodeT, len(repo.dag.nodes))
+		versionMap := make(dvid.VersionMap, len(repo.dag.nodes))
+		for _, uuid := range order {
+			oldV, found := byUUID[uuid]
+			if !found {
+				return fmt.Errorf("uuid %s is not a version of the repo", uuid)
+			}
+			if _, dup := versionMap[oldV]; dup {
+				return fmt.Errorf("uuid %s named twice", uuid)
+			}
+			newV, err := manager.newVersionID(uuid, false)
+			if err != nil {
+				return err
+			}
+			versionMap[oldV] = newV
+			newNodes[newV] = repo.dag.nodes[oldV]
+		}
+		for _, node := range repo.dag.nodes {
+			node.version = versionMap[node.version]
+			for i, p := range node.parents {
+				node.parents[i] = versionMap[p]
+			}
+			for i, c := range node.children {
+				node.children[i] = versionMap[c]
+			}
+		}
+		repo.dag.nodes = newNodes
+	}
+	for _, d := range repo.data {
+		store, err := storage.GetAssignedStore(d)
+		if err != nil {
+			return err
+		}
+		d.SetKVStore(store)
+	}
+	return manager.addRepo(repo)
+}
